@@ -242,7 +242,7 @@ func protoRuns(r *vc.Run) []protoRun {
 			check: checkEdDSASignResult, nodes: []string{"N0", fmt.Sprintf("N%d", s-1)}})
 	}
 	// EdDSA resharing
-	for _, c := range [][4]int{{2, 1, 2, 1}, {3, 1, 3, 2}} {
+	for _, c := range [][4]int{{2, 1, 2, 1}, {3, 1, 3, 2}, {3, 2, 2, 1}} { // same size, threshold raised, committee shrinking
 		n, t, nn, nt2 := c[0], c[1], c[2], c[3]
 		out = append(out, protoRun{proto: "eddsa_resharing", cfg: fmt.Sprintf("old=(%d,%d) new=(%d,%d)", n, t, nn, nt2),
 			build: func() *runCtx {
